@@ -44,6 +44,11 @@ pub struct C10Case {
     /// are required to be gone, and the exit must still be prompt.
     #[serde(default)]
     pub non_exec: bool,
+    /// Watch mode only: every service and every build also declares a file input of its own, and
+    /// that file is rewritten this many times (each time waiting for the restart / re-run) before
+    /// the signal is sent - processes replaced along the way must be gone too.
+    #[serde(default)]
+    pub churn: u8,
 }
 
 pub fn c10_case() -> impl Strategy<Value = C10Case> {
@@ -52,10 +57,10 @@ pub fn c10_case() -> impl Strategy<Value = C10Case> {
         prop::collection::vec(any::<u8>(), 1..=3),
         prop::collection::vec(any::<u8>(), 8),
         (any::<bool>(), 0u8..8, any::<u8>(), 0usize..5, 0u16..300, any::<bool>()),
-        (0u8..10, 100usize..700, 0u8..2, any::<bool>(), 0u8..3),
+        (0u8..10, 100usize..700, 0u8..2, any::<bool>(), 0u8..3, 0u8..6),
     )
         .prop_map(
-            |(raw, rootsel, longb, (watch, cause_b, failing_b, wait_for, delay_ms, double_signal), (large_b, large_size, large_shape, slow_check, non_exec_b))| {
+            |(raw, rootsel, longb, (watch, cause_b, failing_b, wait_for, delay_ms, double_signal), (large_b, large_size, large_shape, slow_check, non_exec_b, churn_b))| {
                 let graph = build_graph(&raw);
                 let n = graph.n();
                 let roots = pick_roots(&graph, &rootsel);
@@ -82,6 +87,7 @@ pub fn c10_case() -> impl Strategy<Value = C10Case> {
                     large_shape: if large_shape == 0 { 1 } else { 5 },
                     slow_check: slow_check && large == 0,
                     non_exec: non_exec_b == 0 && large == 0,
+                    churn: if watch && large == 0 && churn_b >= 3 { churn_b - 2 } else { 0 },
                 }
             },
         )
@@ -173,9 +179,32 @@ fn plan(c: &C10Case) -> Plan {
     }
 }
 
-fn write_c10_project(sb: &Sandbox, p: &Plan, slow_check: bool, non_exec: bool) -> std::path::PathBuf {
+fn write_c10_project(sb: &Sandbox, p: &Plan, slow_check: bool, non_exec: bool, churn: bool) -> std::path::PathBuf {
     let g = &p.graph;
     let dir = write_c10_project_inner(sb, p, non_exec);
+    if churn {
+        // every build and service watches a file of its own project
+        for pr in 0..g.nproj {
+            let pdir = sb.path(&proj_rel(pr));
+            let _ = std::fs::create_dir_all(pdir.join("own_input"));
+            let _ = std::fs::write(pdir.join("own_input/f.txt"), b"v0\n");
+            let path = pdir.join("zinoma.yml");
+            if let Ok(text) = std::fs::read_to_string(&path) {
+                if let Ok(mut doc) = serde_json::from_str::<Value>(&text) {
+                    if let Some(ts) = doc["targets"].as_object_mut() {
+                        for (_, t) in ts.iter_mut() {
+                            if t.get("build").is_some() || t.get("service").is_some() {
+                                let mut input = t["input"].as_array().cloned().unwrap_or_default();
+                                input.push(json!({"paths": ["own_input"]}));
+                                t["input"] = Value::Array(input);
+                            }
+                        }
+                    }
+                    let _ = std::fs::write(&path, serde_json::to_string_pretty(&doc).unwrap());
+                }
+            }
+        }
+    }
     if slow_check {
         // add a slow command input to every build target (rewrite the project files)
         for pr in 0..g.nproj {
@@ -304,7 +333,7 @@ pub fn eval_c10(c: &C10Case) -> CaseResult {
     let p = plan(c);
     let g = &p.graph;
     let sb = Sandbox::new("c10");
-    let dir = write_c10_project(&sb, &p, c.slow_check, c.non_exec);
+    let dir = write_c10_project(&sb, &p, c.slow_check, c.non_exec, c.churn > 0);
     let mut args: Vec<String> = vec![];
     if c.watch {
         args.push("--watch".into());
@@ -390,6 +419,36 @@ pub fn eval_c10(c: &C10Case) -> CaseResult {
         }
         if wait_for > 0 && c.delay_ms > 0 {
             std::thread::sleep(Duration::from_millis((c.delay_ms % 50) as u64));
+        }
+        let mut restarts_seen = 0usize;
+        if exited_early.is_none() && c.churn > 0 {
+            // rewrite the file every build and service declares, and wait for the reaction
+            // (a new service instance or a new script start) before going on
+            for k in 0..c.churn {
+                let before = sb.trace().len();
+                for pr in 0..g.nproj {
+                    let f = sb.path(&proj_rel(pr)).join("own_input/f.txt");
+                    let tmp = sb.path(&format!("own_input_tmp_{}", pr));
+                    let _ = std::fs::write(&tmp, format!("v{}\n", k + 1));
+                    let _ = std::fs::rename(&tmp, &f);
+                }
+                let until = Instant::now() + Duration::from_millis(2500);
+                while Instant::now() < until && sb.trace().len() == before {
+                    std::thread::sleep(Duration::from_millis(10));
+                }
+                if sb.trace().len() > before {
+                    restarts_seen += 1;
+                    // let the replacement come up
+                    std::thread::sleep(Duration::from_millis(150));
+                }
+                if z.try_exit().is_some() {
+                    break;
+                }
+            }
+            classes.push(format!("input-churn-reacted-{}", restarts_seen.min(3)));
+        }
+        if let Some(s) = z.try_exit() {
+            exited_early = Some(s);
         }
         if exited_early.is_none() {
             alive_at_event = sb.marked_processes().iter().filter(|&&q| q != z.pid).count();
